@@ -74,6 +74,35 @@ when they do not, nothing is demanded. -/
 def versionOK (cmin cmax bmin bmax v : Int) : Bool :=
   !overlap cmin cmax bmin bmax || (v == bestVersion cmax bmax && decide (bmin ≤ v) && decide (v ≤ bmax))
 
+/-! ### "encoded with" the version: the parts of the body that depend on the version beyond the field layout -/
+
+/-- Kafka's contract for the record sets of a Produce request (protocol guide; KIP-98): versions 0–2 carry message
+sets (magic 0 or 1), version 3 and later carry record batches (magic 2); brokers reject a mismatch
+(InvalidRecordException / CORRUPT_MESSAGE) -/
+def magicOK (apiVersion magic : Int) : Bool :=
+  if apiVersion < 3 then magic == 0 || magic == 1 else magic == 2
+
+/-- LeaveGroup (KIP-345): versions 0–2 name the one leaving member in `MemberID`, versions 3+ in the `Members` array.
+`want` = the members the caller named; observed on the wire: the member id and the ids of the array -/
+def leaveGroupBodyOK (apiVersion : Int) (want : List String) (wireMember : String) (wireMembers : List String) : Bool :=
+  if apiVersion < 3 then (match want with | m :: _ => wireMember == m | [] => true) && wireMembers.isEmpty
+  else wireMembers == want
+
+/-- first version that has the option on the wire (Kafka protocol guide): DescribeConfigs IncludeSynonyms v1,
+IncludeDocumentation v3; DescribeGroups IncludeAuthorizedOperations v3 -/
+def optionSince (apiKey : Nat) (option : String) : Option Int :=
+  match apiKey, option with
+  | 32, "IncludeSynonyms" => some 1
+  | 32, "IncludeDocumentation" => some 3
+  | 15, "IncludeAuthorizedOperations" => some 3
+  | _, _ => none
+
+/-- an option the caller switched on arrives switched on exactly when the request's version has it -/
+def optionOK (apiKey : Nat) (option : String) (apiVersion : Int) (arrived : Bool) : Bool :=
+  match optionSince apiKey option with
+  | some since => arrived == decide (since ≤ apiVersion)
+  | none => true
+
 /-! ### leader clause (monitor over a plain description of the cluster) -/
 
 /-- cluster facts as the fake cluster holds them: partition → leader -/
